@@ -373,11 +373,11 @@ func (r *recExtractor) Extract(ctx context.Context, in *filesystem.ScanInput) (i
 
 type scanSummary struct {
 	ExtractErrs map[string]int // extractor -> Extract calls that returned an error during the scan
-	Status   plugin.ScanStatusEnum
-	Reason   string
-	Pkgs     map[string][]string // extractor -> sorted "name@version@locations"
-	Statuses map[string]plugin.ScanStatusEnum
-	Reasons  map[string]string
+	Status      plugin.ScanStatusEnum
+	Reason      string
+	Pkgs        map[string][]string // extractor -> sorted "name@version@locations"
+	Statuses    map[string]plugin.ScanStatusEnum
+	Reasons     map[string]string
 }
 
 func capsFor(ext *extInfo) *plugin.Capabilities {
